@@ -154,16 +154,23 @@ def run(ctx):
     streams = {}
     n = 1500 if ctx.quick else 20000
     names_seen = set()
+    from .pairing import run_streams_alternating
+    pend = []
     for i in range(n):
-        w = World(rnd, ts='any')
+        # every other stream reuses the world (same thread ids, same codes) of the one before: the two run on SEPARATE
+        # parser objects fed alternately - what one object pairs must not depend on the other object
+        w = World(rnd, ts='any') if i % 2 == 0 else pend[-1][1]
         g = gen.ProgGen(w, rnd, ntids=3, noise=0.2)
         progs = [g.program(t, rnd.randrange(1, 4)) for t in (1, 2, 3)]
         stream = gen.interleave(rnd, progs)[:60]
-        ex = run_stream(w, stream)
-        oid = 's%d' % i
-        streams[oid] = (w, stream)
-        obs.append(observation(oid, stream, ex, 'win'))
-        names_seen.update(a.name for a in stream if a.name)
+        pend.append(('s%d' % i, w, stream))
+        if len(pend) == 2 or i == n - 1:
+            exs = run_streams_alternating(w, [c[2] for c in pend], rnd) if len(pend) == 2 else [run_stream(w, stream)]
+            for (oid, w_, st_), ex in zip(pend, exs):
+                streams[oid] = (w_, st_)
+                obs.append(observation(oid, st_, ex, 'win'))
+                names_seen.update(a.name for a in st_ if a.name)
+            pend = []
     nv, rej, results = validate_observations('Pairing_Val', obs, ctx.workdir, name='c04val', consts=VAL_CONSTS,
                                             timeout=3000)
     ctx.traces += nv
